@@ -59,6 +59,9 @@ class Explorer:
                 for name, mid in im['methods']:
                     self.impls[(tr + '::' + name, im['self_head'])] = mid
         self.enums0 = {k: v for k, v in F.enums.items() if all(int(x[1]) == 0 for x in v) and k in F.adts}
+        # local enums that carry a payload ("carrier" enums a refactoring introduces to hand a classified result from one step to the next): tracked by
+        # variant, with the shape of their first field
+        self.enumsN = {k: v for k, v in F.enums.items() if k in F.adts and F.adts[k].get('kind') == 'Enum' and any(int(x[1]) > 0 for x in v) and len(v) <= 8}
 
     # ------------------------------------------------------------------ type universes
     def universe(self, t, depth=None):
@@ -88,6 +91,9 @@ class Explorer:
             return [('tuple',) + o for o in out]
         if t in self.enums0:
             return [('E', t, int(v[2])) for v in self.enums0[t]]
+        th = t.split('<')[0]
+        if th in self.enumsN:
+            return [('EV', th, int(v[2]), STAR) for v in self.enumsN[th]]
         i = t.find('<')
         if i > 0 and t.endswith('>'):
             head, args = t[:i], split_top(t[i + 1:-1])
@@ -114,7 +120,7 @@ class Explorer:
         if isinstance(s, str):
             return DISCR.get(s)
         if isinstance(s, tuple) and s:
-            if s[0] == 'E':
+            if s[0] in ('E', 'EV'):
                 return s[2]
             return DISCR.get(s[0])
         return None
@@ -210,6 +216,8 @@ class Explorer:
                     v = v[1 + e[1]] if 1 + e[1] < len(v) else STAR
                 elif isinstance(v, tuple) and v[0] in DISCR:
                     v = v[1] if e[1] == 0 else STAR
+                elif isinstance(v, tuple) and v[0] == 'EV':
+                    v = v[3] if e[1] == 0 else STAR
                 else:
                     return STAR
             else:
@@ -606,6 +614,8 @@ class Explorer:
                     val = (var, ops[0]) if ops else var
                 elif adt in self.enums0:
                     val = ('E', adt, int(self.enums0[adt][rv['vidx']][2]))
+                elif adt in self.enumsN:
+                    val = ('EV', adt, int(self.enumsN[adt][rv['vidx']][2]), ops[0] if ops else STAR)
                 else:
                     val = STAR
             elif k == 'un' and rv['op'] == 'Not':
